@@ -310,7 +310,13 @@ def C16(tier, seed):
     progs = {'H2': ['S1', 'T2', 'Idle'], 'HIa': ['S2', 'T1', 'A'], 'HIs': ['S3', 'U1']}
     if tier != 'thorough': progs = {'H2': progs['H2'], 'HIa': progs['HIa']}
     for pname, ser in progs.items():
-        flt = (lambda c: c.started) if tier == 'thorough' else (lambda c, n=[0]: c.started and (n.__setitem__(0, n[0] + 1) or n[0] <= 10))
+        def flt(c, n=[0], tier=tier):
+            if not c.started: return False
+            if tier == 'thorough': return True
+            # every configuration in which the submachine is exited (its history memory matters at re-entry) + the first few others
+            if c.m[c.prog.root.name]['active'][0] in ('A', 'Idle', 'Other'): return True
+            n[0] += 1
+            return n[0] <= 5
         oracle_units(chk, [pname], [0, 2], 'C16', proj=STD, copy_modes=[4], ser_states=ser,
                      opts={'second': True, 'serialize': True, 'ser_states': ser, 'defines': ['VF_SERIALIZE 1']},
                      bfs_depth=7, max_confs=(60 if tier == 'thorough' else 40), conf_filter=flt, timeout=90, strats=['nk', 'nkG'])
